@@ -1001,6 +1001,9 @@ class TorControlProtocol(LineOnlyReceiver):
 
     def _accumulate_multi_response(self, line):
         "for FSM"
+        # control-spec 2.3: the sender doubles a leading '.' of a data line
+        if line.startswith('.'):
+            line = line[1:]
         if self.command and self.command[2] is not None:
             self.command[2](line)
 
